@@ -25,4 +25,17 @@ FIXED_BY_SUBJECT = {
    ('C09', 'indefinite-length SET with permuted members')],
  "fix: nested constructed fragments of BIT STRING and OCTET STRING": [
    ('C09', 'nested (constructed inside constructed) string segments decoded with inner headers in the value / Trailing bits overflow')],
+ "fix: CachingStreamWrapper on a non-blocking stream that has no data yet": [
+   ('C05', 'non-seekable non-blocking substrate: TypeError (None written into the cache) instead of underrun'),
+   ('C06', 'open truncated non-seekable stream raised TypeError instead of reporting underrun')],
+ "fix: 'no data yet' is not the end of a non-blocking stream": [
+   ('C05', 'a None read between two encodings was taken for end of stream: bare None yielded, remaining objects lost'),
+   ('C06', 'open truncated stream: iteration yielded None / stopped instead of reporting underrun')],
+ "fix: underrun while reading the end-of-octets of an explicit tag": [
+   ('C05', 'explicitly tagged value in indefinite form: an underrun on the closing end-of-octets replaced the value')],
+ "fix: truncation right after a BIT STRING length is an underrun, not a format error": [
+   ('C06', 'prefix ending right after a BIT STRING length octet raised PyAsn1Error(Empty BIT STRING substrate)')],
+ "fix: CHOICE in indefinite form treated a forwarded underrun as the alternative": [
+   ('C05', 'resumed decode of an indefinite-length CHOICE leaked AttributeError'),
+   ('C06', 'open truncated stream inside an indefinite-length CHOICE leaked AttributeError')],
 }
